@@ -27,6 +27,10 @@ KINDS = [
 ]
 
 
+# --verify-function needs a unique substring
+VERIFY_FN_ALIAS = {'next': 'Tokenizer::next'}
+
+
 class Undecided(Exception):
     pass
 
@@ -253,7 +257,7 @@ def run_unit(unit, repo, scratch, features=None, rlimit=30, multiple_errors=4, t
                         fo['inner'] = {(fname, k): set()}
                     jobs.append((fname, k, arm, o, ex.submit(
                         _verus_once, unit, repo, o, scratch, features, rlimit, 2, fo,
-                        ['--verify-root', '--verify-function', fname])))
+                        ['--verify-root', '--verify-function', VERIFY_FN_ALIAS.get(fname, fname)])))
             for (fname, k), nsub in sorted(presplit.items()):
                 for j in range(nsub):
                     o = '%s_split_%s_%d_%d.rs' % (base, fname, k, j)
@@ -261,7 +265,7 @@ def run_unit(unit, repo, scratch, features=None, rlimit=30, multiple_errors=4, t
                     arm = dict(pat=fns[fname]['arms'][k]['pat'] + ' / ' + fns[fname]['arms'][k]['sub'][j]['pat'])
                     jobs.append((fname, k, arm, o, ex.submit(
                         _verus_once, unit, repo, o, scratch, features, rlimit, 2, fo,
-                        ['--verify-root', '--verify-function', fname])))
+                        ['--verify-root', '--verify-function', VERIFY_FN_ALIAS.get(fname, fname)])))
             for fname, k, arm, o, fut in jobs:
                 sw = fut.result()
                 split_runs += 1
